@@ -1,0 +1,12 @@
+// +build verif
+
+package jsonrpc2
+
+// VerifPendingLen returns the number of entries in the reply-routing table.
+// It only exists in builds with the "verif" tag, for the runtime-verification
+// harness.
+func (r *Remote) VerifPendingLen() int {
+	r.mu.Lock()
+	defer r.mu.Unlock()
+	return len(r.pending)
+}
